@@ -188,7 +188,9 @@ def run_group(base_dir, gdir, fs, jobs):
         sec = out[pos:end]
         r = parse_output(sec)
         r.update({"harness": name, "fs": fs, "raw": sec, "timed_out": False, "wall": r["verification_time"] or 0.0})
-        if r["status"] == "UNKNOWN":
+        if "CBMC timed out" in sec:
+            r["status"] = "TIMEOUT"
+        elif r["status"] == "UNKNOWN":
             if re.search(r"timed out|timeout", sec, re.I):
                 r["status"] = "TIMEOUT"
             else:
